@@ -1484,6 +1484,8 @@ impl<R: Read> Vp8Decoder<R> {
         let w = self.frame.width as usize;
         let mw = self.mbwidth as usize;
         let mut ws = create_border_luma(mbx, mby, mw, &self.top_border, &self.left_border);
+        #[cfg(image_webp_verif)]
+        crate::verif_hooks::note_luma_border(&ws, stride);
 
         match mb.luma_mode {
             LumaMode::V => predict_vpred(&mut ws, 16, 1, 1, stride),
@@ -1507,6 +1509,8 @@ impl<R: Read> Vp8Decoder<R> {
             }
         }
 
+        #[cfg(image_webp_verif)]
+        crate::verif_hooks::note_luma_recon(&ws, stride);
         self.left_border[0] = ws[16];
 
         for (i, left) in self.left_border[1..][..16].iter_mut().enumerate() {
